@@ -471,4 +471,83 @@ func C04(r *h.Run) {
 			r.Sample("request_write_fails", map[string]any{"in": in, "send_err": fmt.Sprint(sendErr), "recv_err": fmt.Sprint(recvErr)})
 		}
 	}
+
+	// ---- no response at all: HTTPClient.Do itself fails, with errors of the shapes net/http
+	// produces (a server that closes the connection before answering: `Post "...": EOF`) and
+	// that wrapping clients produce; all RPC kinds, all protocols: never a success ----
+	for _, proto := range []string{"connect", "grpc", "grpcweb"} {
+		for ei, doErr := range []error{
+			io.EOF, fmt.Errorf("Post %q: %w", "http://verif.local/verif.Svc/M", io.EOF), io.ErrUnexpectedEOF,
+			fmt.Errorf("round trip: %w", io.ErrUnexpectedEOF), errors.New("connection refused"), fmt.Errorf("proxy: %w", io.ErrClosedPipe),
+		} {
+			for _, kind := range []string{"unary", "client", "server", "bidi"} {
+				doer := roundTripFunc(func(req *http.Request) (*http.Response, error) {
+					if req.Body != nil {
+						_, _ = io.Copy(io.Discard, req.Body)
+						_ = req.Body.Close()
+					}
+					return nil, doErr
+				})
+				cfg := envCfg{Proto: proto}
+				var opts []connect.ClientOption
+				opts = append(opts, clientOpts(cfg, "")...)
+				switch ei % 3 {
+				case 1:
+					opts = append(opts, connect.WithReadMaxBytes(64))
+				case 2:
+					opts = append(opts, connect.WithSendGzip())
+				}
+				client := connect.NewClient[h.Raw, h.Raw](doer, "http://verif.local/verif.Svc/M", opts...)
+				var err error
+				var got []byte
+				timedOut, p := withWatchdog(10*time.Second, func() {
+					switch kind {
+					case "unary":
+						var res *connect.Response[h.Raw]
+						if res, err = client.CallUnary(context.Background(), connect.NewRequest(&h.Raw{B: []byte("q")})); err == nil {
+							got = res.Msg.B
+						}
+					case "client":
+						st := client.CallClientStream(context.Background())
+						_ = st.Send(&h.Raw{B: []byte("q")})
+						var res *connect.Response[h.Raw]
+						if res, err = st.CloseAndReceive(); err == nil {
+							got = res.Msg.B
+						}
+					case "server":
+						var st *connect.ServerStreamForClient[h.Raw]
+						if st, err = client.CallServerStream(context.Background(), connect.NewRequest(&h.Raw{B: []byte("q")})); err == nil {
+							for st.Receive() {
+							}
+							err = st.Err()
+							_ = st.Close()
+						}
+					default:
+						st := client.CallBidiStream(context.Background())
+						_ = st.Send(&h.Raw{B: []byte("q")})
+						_ = st.CloseRequest()
+						for err == nil {
+							_, err = st.Receive()
+						}
+						if errors.Is(err, io.EOF) {
+							err = nil // a clean end of the stream
+						}
+						_ = st.CloseResponse()
+					}
+				})
+				in := map[string]any{"proto": proto, "kind": kind, "HTTPClient.Do returns": fmt.Sprintf("%q", doErr.Error()), "options": []string{"default", "WithReadMaxBytes(64)", "WithSendGzip"}[ei%3]}
+				r.Eval("do_fails", fmt.Sprint(proto, kind, ei))
+				if timedOut || p != nil {
+					r.Fail(h.Failure{Key: "terminator/hang-or-panic", Family: "do_fails", What: fmt.Sprint("hang or panic: ", p, " timeout=", timedOut), Input: in})
+					continue
+				}
+				r.Sample("do_fails", map[string]any{"in": in, "err": fmt.Sprint(err)})
+				if err == nil {
+					r.Fail(h.Failure{Key: "terminator/success-without-response", Family: "do_fails", What: "the call reported success although there was no HTTP response at all", Input: in, Actual: map[string]any{"message_hex": h.Hex(got)}})
+				} else if connect.CodeOf(err) == 0 {
+					r.Fail(h.Failure{Key: "terminator/zero-code", Family: "do_fails", What: "failure with the zero code", Input: in})
+				}
+			}
+		}
+	}
 }
